@@ -164,6 +164,29 @@ ADDED2 = {
  "C19": " Rounds 4-6: a SIGINT during an aggregate over a join in which every line has 400 partners (rows = 400 x lines processed), an interrupt while the follow reader waits.",
  "C20": " Rounds 4-6: comments holding backslashes / non-ASCII text, non-ASCII literals followed by further clauses.",
 }
+# round 7 (DESIGN.md section 12, round 7): generalisations rather than single cases
+ENGINE_R7 = (" Round 7: generated statement menus (GenMenu / GenJoinMenu: every clause drawn independently from a pool by TLC's RandomElement -- projections x WHERE x DISTINCT x LIMIT incl. i64::MAX x GROUP BY keys "
+             "x 1-3 aggregates plain or inside injective / non-injective wrappers x HAVING x INNER / OUTER JOIN) run under random inputs in batch and line-by-line mode; a corpus of 1 700 lines over 1 301 keys under every law.")
+ADDED3 = {
+ "C01": " Round 7: Trace_Extract.tla (impl -> spec): random definitions over a pool of 30 realistic patterns (capture / split mode, inline patterns, every type and modifier) x random lines (carriage returns, tabs, Unicode blanks, numeric extremes); what each pattern matches is asked of the regex crate, the row is computed by Extract.tla and must be the observed one.",
+ "C02": " Round 7: Trace_Extract.tla: documents built along the JSON paths of random definitions and written by a randomised writer (\\uXXXX escapes in keys and strings, insignificant blanks, other number spellings, 2^63 / 2^64 - 1); serde_json says what the document is, Extract.tla what the row must be.",
+ "C03": ENGINE_R7 + " The expression traces carry the regex crate's verdict for every (text, pattern) pair a regex_matches node meets (36 patterns incl. counted repetitions, classes, alternations, flags).",
+ "C04": ENGINE_R7 + " Aggregates whose argument has no value on one row of a group (ErrAggMenu), groups keyed by arrays of different lengths.",
+ "C05": ENGINE_R7 + " A table joined with itself (qualified names denote the joined row); a join ON a column the queried table lacks is an error with any input, any joined file and any LIMIT (fix c4e8e89).",
+ "C06": ENGINE_R7 + " Trace_Extract.tla NoiseLaw: per random definition two batch runs (all recorded lines / the row lines only) print the same under eight statement kinds.",
+ "C07": ENGINE_R7 + " LIMIT beyond every size (i64::MAX, 2^62) in the menus and in the limit law.",
+ "C08": ENGINE_R7 + " DISTINCT over expressions of aggregates that are not injective (/ 2, > 1, abs(x - 2), * 0); DISTINCT with a LIMIT beyond every size.",
+ "C09": " Round 7: LIMIT beyond every size next to DISTINCT / HAVING, aggregates whose argument fails on one row, the generated statement menus under random inputs.",
+ "C10": " Round 7: a blank in the content alphabet (white space at the end of a followed line is part of the line).",
+ "C11": ENGINE_R7 + " Lines that end in white space (blank, tab, NO-BREAK SPACE, CR + blank) reach the engine unchanged in batch, line-by-line and follow mode (PostMenu).",
+ "C13": " Round 7: wide expressions -- 66 / 130 bracketed constructs of every kind (IN lists, calls, subscripts, casts, CASE, parenthesised operands) in one statement, a parenthesised operand after 64-70 IN lists.",
+ "C14": " Round 7: integer literals at and beyond the 64-bit range (2^63 - 1, 2^63, 2^63 + 1, 2^64 - 1, 2^64, 10^19) in twelve numeric positions of queries and definitions.",
+ "C15": ENGINE_R7 + " ErrAggMenu and OrderLimitMenu (LIMIT next to HAVING / DISTINCT) under PermLaw: the same table or the same error for every order of the lines.",
+ "C18": ENGINE_R7,
+ "C20": " Round 7: whitespace beyond ASCII between tokens (VT, FF, NO-BREAK SPACE, NEL, LINE SEPARATOR, IDEOGRAPHIC SPACE, EM SPACE).",
+}
+for _pid, _t in ADDED3.items():
+    ADDED2[_pid] = ADDED2.get(_pid, "") + _t
 for _pid, _t in ADDED.items():
     CLAIMED[_pid]["text"] += _t
 for _pid, _t in ADDED2.items():
